@@ -356,29 +356,27 @@ theorem C01_full_zero_is_final (s : VF.State) (m : VF.Minter) (hm : s.minter = s
 Projection `VF.limitsOf` (kind, admin, per-address limit, num_tokens, factory maximum, attached whitelist with its kind, the
 five counter maps, tokens received); translation `VF.limitsOp` (the `View`, `started`, `pre`, `oldActive`, `newActive`
 witnesses of the aspect ops are computed from the composite state); one-step simulation `VF.limits_sim_ok/_err`
-(Lemmas/VendingFullLimits.lean).  The aspect model holds the factory's `max_per_address_limit` and the kind of the attached
-whitelist contract constant during a case, so the run-level statements are about `StableRun`s: histories in which governance
-does not change that one parameter and the interface does not rebind the attached whitelist's address to another kind. -/
+(Lemmas/VendingFullLimits.lean).  Governance moving `max_per_address_limit` is the aspect op `govern`.  The aspect model holds the
+kind of the attached whitelist contract constant during a case, so the run-level statements are about `StableRun`s: histories in
+which the interface does not rebind the attached whitelist's address to another kind (only `wlEnv` can; every message of the
+family, `sudo UpdateParams` included, is `EnvStable`: `envStable_of_not_env`). -/
 
 namespace VF
 
-/-- messages other than the two environment changes never move the parameters the aspect model holds constant -/
+/-- messages other than a whitelist-interface change never move the binding the aspect model holds constant (governance moving
+`max_per_address_limit` is the aspect op `govern`) -/
 theorem envStable_of_not_env (s : State) (op : Op)
-    (hop : match op with | .sudoParams _ => False | .wlEnv _ _ => False | _ => True) : EnvStable s op := by
+    (hop : match op with | .wlEnv _ _ => False | _ => True) : EnvStable s op := by
   intro m _
   rcases step'_cases s op with ⟨s', hok, hs'⟩ | ⟨_, hs'⟩
   · rw [hs']
-    obtain ⟨_, _, hp, hw, _⟩ := step_frame hok
-    have hp' : s'.params = s.params := by
-      rcases hp with ⟨u, rfl⟩ | hp
-      · exact absurd hop (by simp)
-      · exact hp
+    obtain ⟨_, _, _, hw, _⟩ := step_frame hok
     have hw' : s'.wls = s.wls := by
       rcases hw with ⟨k, i, rfl⟩ | hw
       · exact absurd hop (by simp)
       · exact hw
-    exact ⟨by rw [hp'], wlBinding_congr hw' rfl⟩
-  · rw [hs']; exact ⟨rfl, rfl⟩
+    exact wlBinding_congr hw' rfl
+  · rw [hs']
 
 /-- the composite history as an aspect-model history -/
 def limitsOps (s : State) : List Op → List MintLimits.Op
